@@ -2,7 +2,7 @@
 import parts_pipeline as pp
 
 CLASS_PROPS = {'values': ['C15'], 'attempts': ['C15'], 'overlap': ['C15'], 'torn': ['C15', 'C03'], 'closed': ['C15', 'C06'],
-               'hang': ['C15', 'C07'], 'ctx-nil': ['C09'], 'sub': ['C12'],
+               'hang': ['C15', 'C07'], 'blocked': ['C14'], 'ctx-nil': ['C09'], 'sub': ['C12'],
                'reuse-values': ['C12', 'C15'], 'reuse-attempts': ['C12', 'C15'], 'reuse-overlap': ['C12', 'C15'], 'reuse-torn': ['C12'], 'reuse-closed': ['C12'], 'reuse-sub': ['C12']}
 
 
